@@ -26,7 +26,7 @@ use rpki::crypto::{
 use rpki::dep::bcder::encode::Values as _;
 use rpki::dep::bcder::Mode;
 use rpki::repository::aspa::Aspa;
-use rpki::repository::cert::{Cert, Overclaim, ResourceCert};
+use rpki::repository::cert::{Cert, Overclaim, ResourceCert, TbsCert};
 use rpki::repository::crl::Crl;
 use rpki::repository::manifest::Manifest;
 use rpki::repository::resources::{
@@ -789,6 +789,9 @@ fn walk_cert(w: &mut Walk, fx: &Fixed, c: &Cert, validate: bool) {
         }
     }
     w.bytes(c.to_captured().as_slice());
+    // the to-be-signed part re-encoded from its fields
+    let tbs: &TbsCert = c.as_ref();
+    w.bytes(tbs.encode_ref().to_captured(Mode::Der).as_slice());
     w.dbg(c.subject_key_identifier());
 }
 
